@@ -680,7 +680,12 @@ class Sym:
                     it = first_iter if gi == 0 else self.canon(g.iter, at, depth + 1)
                     for n, _ in _targets(g.target):
                         bound.setdefault(n, f"_c{level}_{len(bound)}")
-                    conds = [cmp_key(self.cmp(c, at, depth + 1)) for c in g.ifs]
+                    # `if a if b` and `if a and b` filter alike (the tests of a filter are taken to be effect-free: order immaterial)
+                    cs_ = []
+                    for c in g.ifs:
+                        k_ = self.cmp(c, at, depth + 1)
+                        cs_.extend(k_[1] if k_[0] == "and" else [k_])
+                    conds = sorted(cmp_key(k_) for k_ in cs_)
                     tgt = self.canon(g.target, at, depth + 1) if not isinstance(g.target, ast.Name) else bound[g.target.id]
                     gens.append(f"for {tgt} in {it}" + "".join(f" if {c}" for c in conds))
                 if isinstance(e, ast.DictComp):
